@@ -45,7 +45,8 @@ RULE = ('Hypothesis: FileSpec (1-4 dims of length 1-4, 1-4 numeric variables '
         '(same tolerances); with copyall the other variables are '
         'bit-identical.  mask (3/10): non-empty subset of less, less_equal, '
         'greater, greater_equal, values, equal, invalid, where (boolean array '
-        'shaped like one variable, with dims as tuple, or without dims), '
+        'shaped like one variable; given with dims as tuple or list, without '
+        'dims, or as a boolean library variable carrying .dimensions), '
         'thresholds drawn from the data (integral when the file has integer '
         'variables), coords on/off.  Oracle: cell masked iff it was masked '
         'or satisfies >=1 predicate (numpy.isclose rtol=1e-5 atol=1e-8 for '
@@ -99,6 +100,9 @@ def twins(draw, fs):
     fs = copy.deepcopy(fs)
     dlen = A.dlen_of(fs)
     cands = [v for v in fs['vars'] if not v.get('coord')]
+    ranked = [v for v in cands if v['dims']]
+    if ranked and draw(st.integers(0, 9)) > 0:
+        cands = ranked
     base = draw(st.sampled_from(cands))
     n = draw(st.integers(1, 2))
     shape = [dlen[d] for d in base['dims']]
@@ -223,8 +227,8 @@ def cases(draw, tier='quick'):
                                                   min_size=size,
                                                   max_size=size))]
             where = dict(like=like['name'], bits=bits,
-                         dims=draw(st.sampled_from(['tuple', 'tuple',
-                                                    'none'])))
+                         dims=draw(st.sampled_from(['tuple', 'tuple', 'none',
+                                                    'none', 'var', 'list'])))
         else:
             x = draw(st.sampled_from(pool))
             if n in ('values', 'equal'):
@@ -250,41 +254,43 @@ def tol_for(dt):
 
 
 def cmp_cells(lib, evals, emask, dontcare, what, rtol):
-    """cell-wise comparison.  Returns (clause suffix, message) or None."""
+    """cell-wise comparison.  Returns a list of (clause suffix, message);
+    the three clauses are judged independently so that a known mask defect
+    cannot hide a value defect."""
+    out = []
     la = lib[...]
     ld = np.asarray(np.ma.getdata(la))
     lm = np.ma.getmaskarray(la)
     if ld.shape != evals.shape:
-        return 'shape', '%s: shape %r, expected %r' % (what, ld.shape,
-                                                       evals.shape)
+        return [('shape', '%s: shape %r, expected %r' % (what, ld.shape,
+                                                         evals.shape))]
     judge = ~dontcare
     lost = emask & ~lm & judge
     if lost.any():
         idx = tuple(int(i) for i in np.argwhere(lost)[0])
-        return 'mask-lost', ('%s: %d cell(s) that must be masked (masked '
-                             'operand or non-finite result) are unmasked, '
-                             'e.g. %r holds %r (library mask %s, expected '
-                             '%s)' % (what, int(lost.sum()), idx,
-                                      ld[lost].ravel()[0].item(),
-                                      lm.astype(int).tolist(),
-                                      emask.astype(int).tolist()))
+        out.append(('mask-lost', (
+            '%s: %d cell(s) that must be masked (masked operand or '
+            'non-finite result) are unmasked, e.g. %r holds %r (library '
+            'mask %s, expected %s)' % (what, int(lost.sum()), idx,
+                                       ld[lost].ravel()[0].item(),
+                                       lm.astype(int).tolist(),
+                                       emask.astype(int).tolist()))))
     extra = lm & ~emask & judge
     if extra.any():
-        return 'mask-extra', ('%s: cells masked without cause (library mask '
-                              '%s, expected %s)' % (
-                                  what, lm.astype(int).tolist(),
-                                  emask.astype(int).tolist()))
-    keep = judge & ~emask
+        out.append(('mask-extra', (
+            '%s: cells masked without cause (library mask %s, expected %s)'
+            % (what, lm.astype(int).tolist(), emask.astype(int).tolist()))))
+    keep = judge & ~emask & ~lm
     if keep.any():
         with np.errstate(all='ignore'):
             lv = ld[keep].astype('f8')
             ev = evals[keep].astype('f8')
             ok = np.isclose(lv, ev, rtol=rtol, atol=0.0, equal_nan=True)
         if not ok.all():
-            return 'values', '%s: values differ beyond rtol=%g (got %s, ' \
-                'expected %s)' % (what, rtol, S._short(ld[keep]),
-                                  S._short(evals[keep]))
-    return None
+            out.append(('values', '%s: values differ beyond rtol=%g (got '
+                        '%s, expected %s)' % (what, rtol, S._short(ld[keep]),
+                                              S._short(evals[keep]))))
+    return out
 
 
 def raw(mv):
@@ -427,10 +433,9 @@ def check_op(case):
         if p[0] == 'raises':
             continue
         _, res, emask, dontcare, va = p
-        bad = cmp_cells(ov, res, emask, dontcare,
-                        'variable %s = left %s right' % (name, op),
-                        tol_for(res.dtype))
-        if bad:
+        for bad in cmp_cells(ov, res, emask, dontcare,
+                             'variable %s = left %s right' % (name, op),
+                             tol_for(res.dtype)):
             r.fail('op-' + bad[0], bad[1],
                    klass='masked-var' if va.masked else 'plain-var')
     return r
@@ -502,9 +507,9 @@ def check_eval(case):
         ev = np.asarray(np.ma.getdata(exp))
         em = np.ma.getmaskarray(exp) if isinstance(
             exp, np.ma.MaskedArray) else np.zeros(ev.shape, bool)
-        bad = cmp_cells(out.variables[t], ev, em, np.zeros(ev.shape, bool),
-                        'eval %r -> %s' % (src, t), tol_for(ev.dtype))
-        if bad:
+        for bad in cmp_cells(out.variables[t], ev, em,
+                             np.zeros(ev.shape, bool),
+                             'eval %r -> %s' % (src, t), tol_for(ev.dtype)):
             r.fail('eval-' + bad[0], bad[1],
                    klass='masked' if isinstance(exp, np.ma.MaskedArray)
                    else 'plain')
@@ -549,6 +554,13 @@ def check_mask(case):
         elif where['dims'] == 'list':
             wdims = tuple(like.dims)
             kw['dims'] = list(like.dims)
+        elif where['dims'] == 'var':
+            # the in-repo form: where=<boolean library variable>, whose
+            # .dimensions select the variables it applies to
+            from PseudoNetCDF import PseudoNetCDFVariable
+            wdims = tuple(like.dims)
+            kw['where'] = PseudoNetCDFVariable(None, 'cond', '?', wdims,
+                                               values=warr.copy())
     if cflag:
         kw['coords'] = True
     npred = len(preds) + (1 if where is not None else 0)
@@ -668,10 +680,13 @@ def check_mask(case):
         if ((lm != emask) & judge).any():
             lost = (emask & ~lm & judge).any()
             r.fail('mask-cells-' + ('lost' if lost else 'extra'),
-                   '%s: mask %s, expected %s (predicates %r)' % (
+                   '%s: mask %s, expected %s (predicates %r%s)' % (
                        what, lm.astype(int).tolist(),
-                       emask.astype(int).tolist(), case['preds']),
-                   klass=tag)
+                       emask.astype(int).tolist(), case['preds'],
+                       '' if where is None else ' + where/dims=' +
+                       where['dims']),
+                   klass=tag + ('/where-' + where['dims']
+                                if where is not None else ''))
             continue
         keep = judge & ~emask
         if keep.any() and ld[keep].tobytes() != data[keep].tobytes():
@@ -687,7 +702,48 @@ def _masked_var_involved(spec):
                for v in spec['file']['vars'])
 
 
+def _eval_operands(spec):
+    """spec variables used by the expressions of an eval case"""
+    used = []
+
+    def walk(e):
+        if e[0] == 'var':
+            used.append(e[1])
+        for x in e[1:]:
+            if isinstance(x, list):
+                walk(x)
+    for t, e in spec['stmts']:
+        walk(e)
+    byname = {v['name']: v for v in spec['file']['vars']}
+    return [byname[n] for n in used if n in byname]
+
+
+def _scalar_eval(spec, need_unmasked):
+    if spec.get('kind') != 'eval':
+        return False
+    ops = _eval_operands(spec)
+    if not ops or any(v['dims'] for v in ops):
+        return False
+    if not any(v.get('mask') is not None for v in ops):
+        return False
+    if need_unmasked and not any(v.get('mask') is None for v in ops):
+        return False
+    return True
+
+
 known.register('C06-pncbo-mask-stripped',
                lambda spec, f: spec.get('kind') == 'op' and
                f.clause == 'op-mask-lost' and f.klass == 'masked-var' and
                _masked_var_involved(spec))
+known.register('C06-mask-dims-list',
+               lambda spec, f: spec.get('kind') == 'mask' and
+               (spec.get('where') or {}).get('dims') == 'list' and
+               f.clause == 'mask-cells-lost' and
+               f.klass.endswith('/where-list'))
+known.register('C06-eval-masked-scalar-raises',
+               lambda spec, f: _scalar_eval(spec, False) and
+               f.clause == 'eval-raises' and f.where.startswith(
+                   'AttributeError@core/_variables.py:__new__'))
+known.register('C06-eval-scalar-mask-lost',
+               lambda spec, f: _scalar_eval(spec, True) and
+               f.clause == 'eval-mask-lost')
